@@ -1,5 +1,5 @@
 #!/venv/bin/python
-"""tools/seed_matrix.py [--jobs N] [--only C07-a,C12-b] [--nproc K]
+"""tools/seed_matrix.py [--jobs N] [--only C07-a,C12-b] [--nproc K] [--out MATRIX_seed2.json]
 
 Re-runs every seeded change under seeded/ against the checks as they are now:
 for each seed a scratch copy of /repo gets patch.diff applied, the repository's
@@ -90,7 +90,8 @@ def main():
     if "--only" in sys.argv:
         only = set(sys.argv[sys.argv.index("--only") + 1].split(","))
         sids = [s for s in sids if s in only]
-    mpath = os.path.join(HERE, "seeded", "MATRIX.json")
+    mname = sys.argv[sys.argv.index("--out") + 1] if "--out" in sys.argv else "MATRIX.json"
+    mpath = os.path.join(HERE, "seeded", mname)
     matrix = json.load(open(mpath)) if os.path.exists(mpath) else {}
     with ThreadPoolExecutor(jobs) as ex:
         for r in ex.map(lambda s: one(s, nproc), sids):
@@ -99,6 +100,8 @@ def main():
             others = [c for c, v in r.get("checks", {}).items() if v.get("caught") and c != r["property"]]
             print("%-6s confirmed=%s own=%s %s%s" % (r["seed"], r.get("confirmed"), own.get("caught"), ("also " + ",".join(others)) if others else "", (" ERROR " + r["error"]) if "error" in r else ""), flush=True)
             json.dump(matrix, open(mpath, "w"), indent=1, sort_keys=True)
+            if mname != "MATRIX.json":
+                continue
             mp = os.path.join(HERE, "seeded", r["seed"], "meta.json")
             m = json.load(open(mp))
             m["final"] = dict(confirmed=r.get("confirmed"), checks={c: dict(caught=v["caught"], violations=v["violations"], wall_s=v["wall_s"]) for c, v in r.get("checks", {}).items()})
